@@ -33,10 +33,12 @@ struct rp_stats {
 };
 
 extern int rp_diverged;        /* the current behaviour has left the spec (set before pre()) */
+extern int rp_in_prefix;       /* rp_explore_from is replaying the saved prefix (the specification's schedule), not yet exploring */
 extern FILE *rp_replay_out;     /* where a failing behaviour is saved (schedule lines), or NULL */
 void rp_mark_nontrivial (void);
 void rp_note_label (const char *label, int mo, int fmo, int kind);   /* Ord extraction */
 int rp_run (FILE *sched, const struct rp_harness *h, struct rp_stats *st, const char *viol_dir, const char *prop);
+long rp_explore_from (FILE *sched, const struct rp_harness *h, long runs, unsigned seed, const char *viol_dir, const char *prop, int (*done) (void), long max_steps);
 void rp_print_stats (const struct rp_stats *st, FILE *out);
 void rp_print_ord (FILE *out);
 #endif
